@@ -24,6 +24,10 @@
 (* ClosedOnlyWait (_close only waits for - never terminates - a worker whose end a run has  *)
 (* already recorded), StaleOverwrite (the count of in-flight answers of abandoned runs is   *)
 (* overwritten instead of accumulated).                                                     *)
+(* plan.retry = "F": Pool(retry=False) - the input of a worker that dies is not handed to   *)
+(* another one: a poison input kills ONE worker and the run goes on with the others.        *)
+(* NoDeadSkip: first_enqueue no longer skips the workers whose death an earlier run has      *)
+(* recorded; with retry off every later run silently loses one input per such worker.        *)
 (* plan.ctimeout = "none": Pool(close_timeout=None) - clean-up waits as long as it takes   *)
 (* (no history with a stuck or lingering worker is generated for it: its close would not    *)
 (* return).  NoneTimeoutRejected: the constructor refuses close_timeout=None.               *)
@@ -44,7 +48,7 @@
 (* at the very end of _close), so a later close()/terminate() does the clean-up again.     *)
 EXTENDS Naturals, Sequences, FiniteSets, TLC, PoolLifeProps
 
-CONSTANTS Fix, MaxOps, MaxW, Kinds, Plans, Free, ReuseKeys, NoReinit, NoRekey, EarlyFlag, StickyGuard, EarlyUnreg, ClosedOnlyWait, StaleOverwrite, NoneTimeoutRejected, Hist
+CONSTANTS Fix, MaxOps, MaxW, Kinds, Plans, Free, ReuseKeys, NoReinit, NoRekey, EarlyFlag, StickyGuard, EarlyUnreg, ClosedOnlyWait, StaleOverwrite, NoneTimeoutRejected, NoDeadSkip, Hist
 
 VARIABLES plan,       \* scenario: [id, force ("none" | "false"), ops]; ops is followed when Free = FALSE
           ws,         \* workers ever created: sequence of [kind, os, stuck, key, owned]
@@ -79,7 +83,7 @@ Init == /\ plan \in Plans /\ ans = <<0, 0>> /\ ws = <<>> /\ reg = {} /\ closedId
 Obs(op, outcome, closing, extra, dgw, rnw, wsx, regx) ==
    [op |-> op, outcome |-> outcome, closing |-> closing, alive_owned |-> AliveOwnedOf(wsx),
     live_unreg |-> IF LiveUnregOf(wsx, regx) > LiveUnregOf(ws, reg) THEN LiveUnregOf(wsx, regx) - LiveUnregOf(ws, reg) ELSE 0,   \* caused by THIS call
-    extra |-> extra, dead_got_work |-> dgw, restarted_no_work |-> rnw, spoiled |-> 0]
+    extra |-> extra, dead_got_work |-> dgw, restarted_no_work |-> rnw, spoiled |-> 0, missing |-> 0, fresh_dead |-> 0]
 Done(name, o) ==
    /\ nops' = nops + 1
    /\ steps' = IF Hist THEN Append(steps, o) ELSE <<o>>
@@ -127,24 +131,31 @@ Run(name) ==                                \* name: "run" | "runp" (poison: the
      THEN /\ Done(name, Obs(name, "ok", "F", 0, 0, Cardinality({w \in restarted : w \in RegW /\ Alive(w)}), ws, reg))
           /\ UNCHANGED <<ws, closedIds, retries, nrun, restarted, ans>>     \* "no workers": returns None before touching the bookkeeping
      ELSE LET poison == name # "run"
+              noretry == plan.retry = "F"
               got    == {w \in W : Usable(w) /\ Alive(w)}          \* workers that are handed inputs
               deadw  == {w \in W : Usable(w) /\ ~Alive(w)}         \* found dead at the first enqueue
               stale  == IF NoReinit THEN retries ELSE {}            \* run re-initialises _retries (pool.py:242)
               rnw    == Cardinality({w \in restarted : w \in RegW /\ Alive(w) /\ w \notin got})
               pz     == poison \/ stale # {}                       \* a stale poison input is retried first and kills like a fresh one
-              wsx    == IF pz THEN [w \in W |-> IF w \notin got THEN ws[w]
-                                               ELSE IF name = "runl" /\ ws[w].kind # "thread" THEN [ws[w] EXCEPT !.stuck = TRUE]   \* reported its end, process lingers
-                                               ELSE [ws[w] EXCEPT !.os = "dead"]] ELSE ws
               misfiled == \E w \in got : ws[w].regkey # ws[w].key      \* results arrive under an id the registry does not know: assert fails
               old    == IF got # {} /\ ans[1] > ans[2] THEN ans[1] - ans[2] ELSE 0   \* old answers the pool does not know about are taken for new ones
-          IN /\ nrun' = nrun + 1
-             /\ closedIds' = closedIds \cup {ws[w].key : w \in deadw} \cup (IF pz THEN {ws[w].key : w \in got} ELSE {})
-             /\ ws' = wsx
-             /\ retries' = IF pz /\ got # {} THEN stale \cup {nrun + 1} ELSE (IF got = {} THEN stale ELSE {})
-             /\ restarted' = {}
-             /\ ans' = IF got = {} THEN ans ELSE IF pz THEN <<0, 0>> ELSE <<old, 0>>     \* as many of its own answers stay behind
-             /\ Done(name, [Obs(name, IF pz \/ got = {} \/ misfiled THEN "raised" ELSE "ok", "F", Cardinality(stale) + old, 0, rnw, wsx, reg)
-                             EXCEPT !.spoiled = IF misfiled /\ ~pz THEN 1 ELSE 0])
+              lost   == IF NoDeadSkip /\ noretry /\ name = "run" /\ got # {}       \* an input offered to a worker recorded dead is dropped
+                        THEN Cardinality({w \in RegW : ws[w].key \in closedIds}) ELSE 0
+          IN \E hit \in SUBSET got :            \* the workers that take the poison: all of them in turn with retry, exactly one without
+             /\ hit = (IF ~pz THEN {} ELSE IF noretry /\ got # {} THEN hit ELSE got)
+             /\ (pz /\ noretry /\ got # {}) => Cardinality(hit) = 1
+             /\ LET wsx == [w \in W |-> IF w \notin hit THEN ws[w]
+                                       ELSE IF name = "runl" /\ ws[w].kind # "thread" THEN [ws[w] EXCEPT !.stuck = TRUE]   \* reported its end, process lingers
+                                       ELSE [ws[w] EXCEPT !.os = "dead"]]
+                    allgone == hit = got
+                IN /\ nrun' = nrun + 1
+                   /\ closedIds' = closedIds \cup {ws[w].key : w \in deadw} \cup {ws[w].key : w \in hit}
+                   /\ ws' = wsx
+                   /\ retries' = IF pz /\ got # {} /\ ~noretry THEN stale \cup {nrun + 1} ELSE (IF got = {} THEN stale ELSE {})
+                   /\ restarted' = {}
+                   /\ ans' = IF got = {} THEN ans ELSE IF pz THEN <<0, 0>> ELSE <<old, 0>>     \* as many of its own answers stay behind
+                   /\ Done(name, [Obs(name, IF (pz /\ allgone) \/ got = {} \/ misfiled THEN "raised" ELSE "ok", "F", Cardinality(stale) + old, 0, rnw, wsx, reg)
+                                   EXCEPT !.spoiled = IF misfiled /\ ~pz THEN 1 ELSE 0, !.missing = lost, !.fresh_dead = Cardinality(deadw)])
   /\ UNCHANGED <<plan, reg, poolClosed, nextKey, pc, todo, graceful>>
 
 RunAbort ==                                 \* run() abandoned by an exception raised by the worker_callback at the first 'enqueued' event
@@ -267,7 +278,7 @@ Next == \/ \E k \in Kinds : AddOk(k) \/ Attach(k)
         \/ (\E w \in W : CleanupWorker(w)) \/ CloseEnd \/ Interrupt
 Spec == Init /\ [][Next]_vars
 
-R0 == [scn |-> [force |-> force, ctimeout |-> plan.ctimeout],
+R0 == [scn |-> [force |-> force, ctimeout |-> plan.ctimeout, retry |-> plan.retry],
        obs |-> [created |-> IF NoneTimeoutRejected /\ plan.ctimeout = "none" THEN "raised" ELSE "ok", steps |-> steps]]
 AtRest == pc \in RestPcs
 TypeOK == /\ \A kw \in reg : kw[2] \in W
